@@ -165,19 +165,15 @@ def load_known() -> dict:
 
 def finish(ctx: Ctx, started: float, selftest: dict | None = None, write_evidence: bool = True, evidence_dir: Path | None = None) -> int:
     """Match findings against the known list, print lines, write evidence, return exit code."""
-    # floors
+    # floors (a vacuous rule fails the run as analysis-broken - unless another rule reports a violation, which is the stronger verdict)
     fired = {fd.rule for fd in ctx.findings}
+    floor_error = None
     for rule, floor in ctx.rule_floor.items():
         got = ctx.rule_counts.get(rule, 0)
         if rule in fired:
             continue  # a rule that reports a finding is not vacuous (an enumeration may stop at its first finding)
-        if got < floor:
-            for u in ctx.undecided[:8]:
-                print(f"UNDECIDED {u}")
-            raise AnalysisError(
-                f"rule {rule} matched {got} instance(s), fewer than the {floor} confirmed by reading: "
-                "the rule would pass vacuously"
-            )
+        if got < floor and floor_error is None:
+            floor_error = f"rule {rule} matched {got} instance(s), fewer than the {floor} confirmed by reading: the rule would pass vacuously"
     known = load_known()
     known_keys = {k["key"]: k for k in known.get("known", []) if k.get("property") == ctx.prop}
     ev_dir = evidence_dir or (VERIF / "evidence")
@@ -202,6 +198,10 @@ def finish(ctx: Ctx, started: float, selftest: dict | None = None, write_evidenc
         print(f"VIOLATION property={ctx.prop} replay={rp}")
     for u in ctx.undecided[:20]:
         print(f"UNDECIDED {u}")
+    if floor_error is not None:
+        if not new:
+            raise AnalysisError(floor_error)
+        print(f"NOTE {floor_error}")
     wall = time.time() - started
     coverage = {
         "explanation": (
